@@ -195,6 +195,18 @@ def run_property(prop, tier='quick', seed=0, out=sys.stdout):
         vio_lines.append(line)
         confirmed.append((name, obs))
     new_violations = confirmed
+    still = []
+    for o in undecided:
+        kf = [k for k in known if k.get('property') == prop and k.get('obligation') == o['name'] and k.get('status', 'open') == 'open']
+        if kf:
+            # a recorded finding whose obligation is (as expected) not provable: the solvers need not re-find the witness
+            line = f"KNOWN-FINDING: property={prop} {kf[0]['what']} [obligation {o['name']}]"
+            if line not in known_printed:
+                print(line, file=out)
+                known_printed.append(line)
+        else:
+            still.append(o)
+    undecided = still
     for o in undecided:
         print(f"UNDECIDED property={prop} obligation={o['name']} ({'; '.join(str(x) for x in o['result']['log'])})", file=out)
     for u in undecided_fn:
